@@ -669,7 +669,7 @@ def run(ctx: Ctx) -> None:
         shards = [(s % 48, 48, 16, 16), (48, 48, s % 16, 16), (48, 48, (7 * s) % 256, 256, 3, FAMILIES_N3)]
     else:
         shards = ([((s + 5 * k) % 16, 16, 4, 4) for k in range(2)] + [(16, 16, k, 4) for k in range(4)]   # two C01 shards; all of C02's N=2
-                  + [(16, 16, (s + 11 * k) % 64, 64, 3, FAMILIES_N3) for k in range(2)])                   # two shards of C02's N=3
+                  + [(16, 16, (s + 11 * k) % 64, 64, 3, FAMILIES_N3 + ("illformed_run_func",)) for k in range(2)])   # two shards of C02's N=3
     # the export and the implementation-shaped orderings are independent TLC runs: side by side (their results are
     # registered afterwards, in a fixed order)
     late = _Deferred(ctx)
